@@ -106,8 +106,8 @@ def conversion_wrappers(h):
     UNCHANGED and add none of their own (so the three-way failure policy and the config default apply to them exactly as to convert);
     the per-field forms convert exactly the field they are given, the *all forms go through convertall (every column by POSITION)."""
     for name, pos, scope in WRAPPERS:
-        for strict in ((False, True) if name == 'convertnumbers' else (None,)):
-            def body(ctx, name=name, pos=pos, scope=scope, strict=strict):
+        for strict, with_policy in [(st, wp) for st in ((False, True) if name == 'convertnumbers' else (None,)) for wp in (True, False)]:
+            def body(ctx, name=name, pos=pos, scope=scope, strict=strict, with_policy=with_policy):
                 it = h.interp(ctx)
                 calls = []
 
@@ -126,7 +126,7 @@ def conversion_wrappers(h):
                 vals = {k: sym_cell(k.lower()) for k in ('FIELD', 'A', 'B', 'VAL', 'FMT')}
                 vals['CONV'] = UCall('conv')
                 fo, ev, wh = sym_cell('failonerror'), sym_cell('errorvalue'), UCall('where')
-                user_kw = {'failonerror': fo, 'errorvalue': ev, 'where': wh}
+                user_kw = {'failonerror': fo, 'errorvalue': ev, 'where': wh} if with_policy else {'where': wh}       # (policy arguments omitted: the config default must apply)
                 kw = dict(user_kw)
                 if strict is not None:
                     kw['strict'] = strict
@@ -143,7 +143,7 @@ def conversion_wrappers(h):
                     sel = c[1][1] if len(c[1]) > 1 else None
                     items = list(sel.items) if isinstance(sel, PyList) else list(sel) if isinstance(sel, (list, tuple)) else None
                     ctx.oblige('convertall: every column is selected by POSITION 0 .. len(header)-1 (duplicate field names are all converted)',
-                               z3.BoolVal(bool(ok) and c[0] == 'convert' and items == [0, 1, 2] and c[1][2] is vals['CONV']))
+                               z3.BoolVal(bool(ok) and c[0] == 'convert' and items is not None and len(items) == 3 and all(isinstance(x, int) and not isinstance(x, bool) and x == j for j, x in enumerate(items)) and c[1][2] is vals['CONV']))
                 else:
                     ctx.oblige('%s: goes through convertall' % name, z3.BoolVal(bool(ok) and c[0] == 'convertall'))
             h.explore(body)
